@@ -396,9 +396,52 @@ fn main() {
             }
         });
         ctx.set("thorough_width2_alphabet", json!(n));
+        // every 2-byte value of one operand x the extended alphabet of the other operand, both positions, every op
+        let all_ops: Vec<BinOpType> = ALL_BINOPS.iter().copied().filter(|o| ref_bin(*o).map(|r| r != Bin::Piece && !r.is_bool()).unwrap_or(false)).collect();
+        let nops = all_ops.len() as u64;
+        let mut ext2: Vec<u128> = (0..256u128).collect();
+        ext2.extend(ops::boundary_values(2));
+        ext2.sort();
+        ext2.dedup();
+        par_for(65536 * nops, 64, |i| {
+            let op = all_ops[(i % nops) as usize];
+            let a = (i / nops) as u128;
+            for &b in ext2.iter() {
+                run_case(ctx, &Case::Bin { op: format!("{op:?}"), a: h(a), wa: 2, b: h(b), wb: 2 });
+                run_case(ctx, &Case::Bin { op: format!("{op:?}"), a: h(b), wa: 2, b: h(a), wb: 2 });
+                ctx.add_states(2);
+                if a != b && a != 0 && b != 0 {
+                    ctx.add_nontrivial(2);
+                }
+            }
+        });
+        // every 2-byte value: unary ops, casts, subpieces
+        par_for(65536, 256, |a| {
+            let a = a as u128;
+            for op in ALL_UNOPS {
+                if matches!(op, UnOpType::BoolNegate) {
+                    continue;
+                }
+                run_case(ctx, &Case::Un { op: format!("{op:?}"), a: h(a), w: 2 });
+                ctx.add_states(1);
+            }
+            for op in ALL_CASTS {
+                for to in [1u32, 2, 4, 8, 16] {
+                    if matches!(op, CastOpType::IntZExt | CastOpType::IntSExt) && to < 2 {
+                        continue;
+                    }
+                    run_case(ctx, &Case::Cast { op: format!("{op:?}"), a: h(a), w: 2, to });
+                    ctx.add_states(1);
+                }
+            }
+            for (low, size) in [(0u32, 1u32), (1, 1), (0, 2)] {
+                run_case(ctx, &Case::Subpiece { a: h(a), w: 2, low, size });
+                ctx.add_states(1);
+            }
+        });
     }
     let _ = cases_total;
-    ctx.set("bounds", json!({"width1": "all 65536 operand pairs per binary op, all 256 per unary op/cast", "widths_2_4_8_16": "all pairs of the boundary alphabet B(w)", "piece": "all width pairs summing to <=16", "subpiece": "every (low_byte,size) that fits", "thorough": "plus all pairs of 2-byte operands that are extended 1-byte values"}));
+    ctx.set("bounds", json!({"width1": "all 65536 operand pairs per binary op, all 256 per unary op/cast", "widths_2_4_8_16": "all pairs of the boundary alphabet B(w)", "piece": "all width pairs summing to <=16", "subpiece": "every (low_byte,size) that fits", "thorough": "plus all pairs of 2-byte operands that are extended 1-byte values; every 2-byte value x that alphabet in both operand positions for every op; every 2-byte value for unary ops, casts and subpieces"}));
     ctx.assume("signed MIN / -1 (and MIN % -1): either the wrapped value or 'unknown' is accepted (the manual is silent)");
     ctx.assume("mult/div/rem wider than 8 bytes: 'unknown' or the correct value accepted");
     ctx.assume("booleans are 0/1 as P-Code guarantees");
